@@ -151,7 +151,7 @@ func RunStress(s Stress) *Trace {
 	case <-time.After(60 * time.Second):
 		tr.Unanswered = "pushers still blocked 60 s after the start although the database keeps answering"
 	}
-	if tr.Unanswered == "" && !hs.Rec.WaitAnswered(30*time.Second) {
+	if tr.Unanswered == "" && !hs.Rec.WaitSettled(hs.Cfg.RetryAttempts, 30*time.Second) {
 		tr.Unanswered = "submissions without an answer 30 s after the last push although the database keeps answering"
 	}
 	close(stopRel)
